@@ -11,7 +11,7 @@ def run(ctx):
                          "4 arena configurations); every callback-bearing op is re-run from the same state with a panic at each callback index "
                          "and with each dropped value panicking in Drop; distinct_nontrivial counts distinct op lines replayed on the model")
     proved = prove(ctx, MODULES)
-    run_coll(ctx, 160 if q else 6000, 12, "drops", oracle_props=["C06"])
+    run_coll(ctx, 700 if q else 20000, 12, "drops", oracle_props=["C06"])
     if (not proved or ctx.disagreements) and not ctx.oracle_failures and q:
         ctx.notes.append("proof/correspondence broken: running the thorough-tier search for a failing input")
         run_coll(ctx, 3000, 14, "deep", oracle_props=["C06"], seed_offset=1000, label="deep-search")
